@@ -49,6 +49,10 @@ type pxModel struct {
 	withdraw  map[string]common.Address
 	touched   map[string][]string // address -> cosmos-side ops that credited/debited it
 	flows     map[string]bool     // addresses whose balance the EVM itself moved in this tx (value > 0)
+	// seen: addresses whose state object the EVM had loaded when a given moment of the replay is reached (sender, call
+	// targets and value recipients that exist; a probe of an address without an account loads nothing)
+	seen   map[string]bool
+	exists map[string]bool
 	effects   []pxEffect          // cosmos-side coin movements of successful precompile calls
 	residue   bool                // a successful precompile call carried value
 	curCaller common.Address
@@ -61,6 +65,7 @@ type pxEffect struct {
 	Account common.Address
 	Caller  common.Address // immediate caller of the precompile
 	Deleg   common.Address
+	Seen    bool // the account's state object was already loaded by the EVM when the precompile moved its coins
 }
 
 func addrKey(a common.Address) string { return a.Hex() }
@@ -86,7 +91,7 @@ func (m *pxModel) payout(d common.Address, val string, op string) {
 	m.add(w, r)
 	m.add(common.BytesToAddress(moduleAddr(distrtypes.ModuleName)), new(big.Int).Neg(r))
 	m.touched[w.Hex()] = append(m.touched[w.Hex()], op+":reward-credit")
-	m.effects = append(m.effects, pxEffect{Method: op, Effect: "reward-credit", Account: w, Caller: m.curCaller, Deleg: d})
+	m.effects = append(m.effects, pxEffect{Seen: m.seen[w.Hex()], Method: op, Effect: "reward-credit", Account: w, Caller: m.curCaller, Deleg: d})
 	m.pending[k] = new(big.Int)
 }
 
@@ -103,13 +108,14 @@ func runC02(st *ev.Stats, p PxProgram) string {
 	vals := pxVals(n)
 
 	// ---- reference model initial state ----
-	m := &pxModel{bal: map[string]*big.Int{}, pending: map[string]*big.Int{}, hasDel: map[string]bool{}, withdraw: map[string]common.Address{}, touched: map[string][]string{}, flows: map[string]bool{}}
+	m := &pxModel{bal: map[string]*big.Int{}, pending: map[string]*big.Int{}, hasDel: map[string]bool{}, withdraw: map[string]common.Address{}, touched: map[string][]string{}, flows: map[string]bool{}, seen: map[string]bool{}, exists: map[string]bool{}}
 	accounts := pxAllAccounts()
 	names := map[string]string{}
 	for name, a := range accounts {
 		h := common.BytesToAddress(a.Bytes())
 		m.bal[h.Hex()] = n.Balance(a)
 		names[h.Hex()] = name
+		m.exists[h.Hex()] = app.AccountKeeper.GetAccount(n.Ctx(), a) != nil
 	}
 	q := distrkeeper.NewQuerier(app.DistrKeeper)
 	for _, a := range accounts {
@@ -177,13 +183,13 @@ func runC02(st *ev.Stats, p PxProgram) string {
 			m.add(bonded, amt)
 			m.hasDel[d.Hex()+"|"+val] = true
 			m.touched[d.Hex()] = append(m.touched[d.Hex()], op+":debit")
-			m.effects = append(m.effects, pxEffect{Method: op, Effect: "debit", Account: d, Caller: self, Deleg: d})
+			m.effects = append(m.effects, pxEffect{Seen: m.seen[d.Hex()], Method: op, Effect: "debit", Account: d, Caller: self, Deleg: d})
 		case "createValidator":
 			// the self-delegation of a new (unbonded) validator goes to the not-bonded pool
 			m.add(d, new(big.Int).Neg(amt))
 			m.add(notBonded, amt)
 			m.touched[d.Hex()] = append(m.touched[d.Hex()], op+":debit")
-			m.effects = append(m.effects, pxEffect{Method: op, Effect: "debit", Account: d, Caller: self, Deleg: d})
+			m.effects = append(m.effects, pxEffect{Seen: m.seen[d.Hex()], Method: op, Effect: "debit", Account: d, Caller: self, Deleg: d})
 		case "approve":
 			// no coins move
 		case "undelegate":
@@ -230,6 +236,7 @@ func runC02(st *ev.Stats, p PxProgram) string {
 	} else if vmErr == "" {
 		m.add(pxSigner.Hex, new(big.Int).Neg(value))
 		m.add(evmasm.FrameAddr(0), value)
+		m.seen[pxSigner.Hex.Hex()], m.seen[evmasm.FrameAddr(0).Hex()] = true, true
 		if value.Sign() > 0 {
 			m.flows[pxSigner.Hex.Hex()], m.flows[evmasm.FrameAddr(0).Hex()] = true, true
 		}
@@ -262,6 +269,10 @@ func runC02(st *ev.Stats, p PxProgram) string {
 				case "send":
 					m.add(ctxOf[i], new(big.Int).Neg(v))
 					m.add(pxAddrOf(op.Target, ctxOf[i]), v)
+					m.seen[ctxOf[i].Hex()] = true
+					if tg := pxAddrOf(op.Target, ctxOf[i]).Hex(); m.exists[tg] || v.Sign() > 0 {
+						m.seen[tg], m.exists[tg] = true, true
+					}
 					if v.Sign() > 0 {
 						m.flows[ctxOf[i].Hex()], m.flows[pxAddrOf(op.Target, ctxOf[i]).Hex()] = true, true
 					}
@@ -269,6 +280,7 @@ func runC02(st *ev.Stats, p PxProgram) string {
 					if op.CallOp == "CALL" || op.CallOp == "" {
 						m.add(ctxOf[i], new(big.Int).Neg(v))
 						m.add(evmasm.FrameAddr(op.Child), v)
+						m.seen[ctxOf[i].Hex()], m.seen[evmasm.FrameAddr(op.Child).Hex()] = true, true
 						if v.Sign() > 0 {
 							m.flows[ctxOf[i].Hex()], m.flows[evmasm.FrameAddr(op.Child).Hex()] = true, true
 						}
@@ -367,7 +379,8 @@ func runC02(st *ev.Stats, p PxProgram) string {
 		for _, e := range m.effects {
 			// both mirrors act on the immediate caller and only when the caller is the delegator
 			mirrored := e.Account == e.Caller && e.Caller == e.Deleg && ((e.Method == "staking.delegate" && e.Effect == "debit") || (e.Method == "distribution.withdraw" && e.Effect == "reward-credit"))
-			if !mirrored && (m.flows[e.Account.Hex()] || e.Account == e.Caller) {
+			// (an account the EVM first looks at after the Cosmos-side move is loaded with the moved balance: nothing stale)
+			if !mirrored && ((m.flows[e.Account.Hex()] && e.Seen) || e.Account == e.Caller) {
 				// (the immediate caller's balance object is always loaded, and written back when anything marks it dirty)
 				keys["stale-overwrite:"+e.Method+":"+e.Effect] = true
 			}
